@@ -46,6 +46,16 @@ def run_one(mod, req):
     from . import api
 
     res = dict(status="ok", claims=[], observed={}, error=None)
+    w = req.get("warmup")
+    if w and w.get("values") is not None:
+        # the symbolic path ran in a "used process": repeat its warm-up run (same inputs) before the replay
+        api.reset("plain", values=w["values"], seed=4242)
+        try:
+            if hasattr(mod, "prepare"):
+                mod.prepare(w["cfg"])
+            mod.body(w["cfg"])
+        except BaseException:  # noqa: BLE001
+            pass
     api.reset("plain", values=req.get("values"), seed=req.get("seed", 0))
     try:
         if hasattr(mod, "prepare"):
